@@ -459,7 +459,10 @@ def gen_hist(n, rnd):
                 # the request of an earlier step of this history once more, under another id
                 e2 = dict(rnd.choice(again))
                 e2["id"] = rnd.choice([0, 7, "again", 2.5, [1, 2], {"a": 1}, False, -1])
-                ents[rnd.randrange(len(ents))] = e2
+                pos = rnd.randrange(len(ents))
+                others = [alias_of(x.get("method")) for k2, x in enumerate(ents) if k2 != pos and isinstance(x, dict)]
+                if alias_of(e2.get("method")) not in others:       # (executions are attributed to entries by their alias)
+                    ents[pos] = e2
             earlier.extend(ents)
             text = dumps(ents[0] if m == 0 else ents, rnd)
             if rnd.random() < 0.08:
